@@ -96,8 +96,8 @@ impl quinn::UdpPoller for Poller {
 }
 
 fn parse_initial(d: &[u8]) -> Option<(Vec<u8>, Vec<u8>)> {
-    // long header, fixed bit, type Initial (00) for QUIC v1
-    if d.len() < 7 || d[0] & 0xF0 != 0xC0 {
+    // long header, type Initial (00), QUIC v1; the fixed bit may be greased (RFC 9287)
+    if d.len() < 7 || d[0] & 0xB0 != 0x80 || d[1..5] != [0, 0, 0, 1] {
         return None;
     }
     let dl = d[5] as usize;
